@@ -455,7 +455,7 @@ func c15CheckReplay(c *fw.Ctx, cs c15Case, after, remoteLog, localOnly, localBef
 
 func runC15(c *fw.Ctx) {
 	r := c.Rand(uint64(1500 + c.Shard))
-	n := c.Pick(48, 3000) / c.NShards
+	n := c.Pick(48, 800) / c.NShards
 	if n < 2 {
 		n = 2
 	}
